@@ -65,6 +65,9 @@ func (p Params) Validate() error {
 	if err := validateUint64("reward percentage", false)(p.RewardPercentage); err != nil {
 		return err
 	}
+	if p.RewardPercentage > 100 {
+		return fmt.Errorf("reward percentage must not exceed 100: %d", p.RewardPercentage)
+	}
 
 	// Validate fee
 	if !p.FeePerSigner.IsValid() {
